@@ -4,6 +4,8 @@ CONSTANTS
   SortedLen = 0
   NoForeignLen = 3
   OtherLen = 2
+  WrapLen = 2
+  MatchKey = "annotation"
   ClipValidator = "after"
 CONSTRAINT Export
 INVARIANT ImplIffValid
